@@ -163,6 +163,23 @@ def run(ctx):
     seed = str(ctx.seed)
     rows = vc.hrows(["-mode", "values", "-seed", seed, "-n", "30000" if thorough else "600"])
     rows += vc.hrows(["-mode", "graph", "-seed", seed, "-n", "1500" if thorough else "30"])
+    # part of the value stream in child processes whose LOCAL zone is not UTC (time.Parse attaches time.Local to anchors
+    # written with the local offset): whole-hour zone with daylight saving, and a half-hour zone
+    for tz in ("Europe/Berlin", "Asia/Kolkata"):
+        os.environ["TZ"] = tz
+        try:
+            extra = vc.hrows(["-mode", "values", "-seed", str(ctx.seed + 17), "-n", "2000" if thorough else "120"])
+        finally:
+            os.environ.pop("TZ", None)
+        for r in extra:
+            r["tz"] = tz
+        rows += extra
+    for r in [r for r in rows if r["kind"] == "ctor"][:3]:
+        ctx.violation({"kind": "property-violated-by-implementation", "class": "constructor-getter-mismatch", "explain": r["what"],
+                       "failing_input": {"id": vc.show(r["id"]), "anchor": r["anchor"], "printed": vc.show(r["printed"])}})
+    rows = [r for r in rows if r["kind"] != "ctor"]
+    faults = [r for r in rows if r["kind"] in ("wfault", "rfault")]
+    rows = [r for r in rows if r["kind"] not in ("wfault", "rfault")]
     second = [r for r in rows if r["kind"] == "secondpass"]
     big = [r for r in rows if r.get("nomodel")]
     rows = [r for r in rows if r["kind"] != "secondpass" and not r.get("nomodel")]
@@ -195,6 +212,25 @@ def run(ctx):
         ctx.violation({"kind": "oracle-law-fails", "explain": "a law of the Go library assumed by the C05 theorems (oracle_laws) does not hold on this sample",
                        "failing_input": f})
     ctx.cov["oracle_law_samples"] = lawcnt
+    # failing writers / readers: "both operations report that number of triples"
+    for r in faults:
+        why = None
+        if r.get("panic"):
+            why = "panics"
+        elif r["kind"] == "wfault":
+            if not r["err"] and not (r["complete"] and r["n"] == r["triples"]):
+                why = "WriteGraph returned a nil error although the text that reached the writer is incomplete (or a wrong count)"
+            elif r["limit"] >= r["total"] and r["err"]:
+                why = "WriteGraph failed although the writer accepted the whole text"
+        else:
+            lo = r["lines_delivered"]
+            if not r["err"]:
+                why = "ReadIntoGraph returned a nil error although the reader failed"
+            elif not (lo <= r["n"] <= lo + 1) or r["stored"] != r["n"] or r["foreign"] > r["n"] - lo:
+                why = "ReadIntoGraph's count / stored triples do not match the lines the reader delivered"
+        if why:
+            ctx.violation({"kind": "property-violated-by-implementation", "class": "io-fault-" + r["kind"], "explain": why, "failing_input": r})
+    ctx.cov["io_fault_cases"] = len(faults)
     domset = set(dom)
     findings = vcheck.known_findings("C05")
     unexplained, explained, in_dom_fail = [], {}, []
@@ -255,7 +291,8 @@ def run(ctx):
     ctx.cov["graph_sizes"] = sorted(set(len(r["triples"] or []) for r in rows if r["kind"] == "graph"))
     ctx.cov["roundtrip_outcomes"] = {c: sum(1 for r in rows if r["kind"] == "value" and r.get("parsed", {}).get("c") == c) for c in ("ok", "err", "panic", "nilnil")}
     ctx.cov["model_mismatches"] = len(bad)
-    ctx.cov["second_pass"] = second[0] if second else None
+    ctx.cov["second_pass"] = second
+    ctx.cov["values_in_other_local_zones"] = {tz: sum(1 for r in rows if r.get("tz") == tz) for tz in ("Europe/Berlin", "Asia/Kolkata")}
     ctx.cov["long_values"] = sum(1 for r in big if r["kind"] == "value")
     ctx.cov["largest_graph_text_bytes"] = max([r.get("textlen", 0) for r in rows if r["kind"] == "graph"] + [0])
     ctx.cov["failures_in_known_classes"] = {k: len(v) for k, v in explained.items()}
